@@ -413,6 +413,14 @@ package hclsyntax
 
 // The splat operator: the marks of the source value are on the result (error paths return
 // cty.DynamicVal together with error diagnostics).
+// (unit U14b, C05) When the source is unknown the result type is found by evaluating the splat's
+// body once per element type with a placeholder for the element. The placeholder is the bare
+// unknown value of the element type - no refinement: a concrete element may be anything of that type,
+// null included. (The clause is on the type-inference function literal, (*SplatExpr).Value$1.)
+// verif:func (*SplatExpr).Value$1
+//@ nosafety
+//@ props C05,C19
+//@ callsite setValue placeholder: typeOf(arg2) == ety && bareUnknown(arg2)
 // verif:func (*SplatExpr).Value
 //@ nosafety
 //@ ensures marks: forall k iface :: { marked(ret0, k) } marked(exprVal(old(e.Source), ctx), k) ==> marked(ret0, k) || (ret0 == cty.DynamicVal && hasErr(ret1))
